@@ -220,6 +220,8 @@ impl Client {
                 Ok(Some(RequestResult::ProcessTypes(types))) => {
                     let ClientOp::Line { session, src } = self.ops[self.pc].clone() else { unreachable!() };
                     let types: HashMap<usize, (Type, usize)> = types;
+                    // `@?` stands for the newest process (REPL process references are by number)
+                    let src = if src.contains("@?") { src.replace("@?", &format!("@{}", types.keys().max().copied().unwrap_or(0))) } else { src };
                     let repl = self.sessions[session].as_mut().unwrap();
                     let r = std::panic::catch_unwind(std::panic::AssertUnwindSafe(|| repl.evaluate(&mut world.env, &src, types)));
                     world.scan_new_msgs();
